@@ -87,6 +87,14 @@ CLAIMED['C20'] = dict(
     technique=PYVC + ' on nested closures; string templates as symbolic parts; exhaustive bounded histories',
 )
 
+CLAIMED['C04'] = dict(
+    category='exploration',
+    text='BOUNDED ONLY so far (no deductive obligations yet: the nested-dictionary representation invariant of OutgoingRIB is not under contract). The real OutgoingRIB is driven by every operation sequence of length <= 3 (4 thorough) over announce (2 prefixes x 2 attribute sets), withdraw with/without attributes, flush, partial consumption of the update generator, clear adj-rib-out and resend, plus sampled longer ones; every UPDATE is encoded by the real UpdateCollection.messages() and applied in order to a peer table rebuilt with an RFC reference decoder; after the queue drains the peer table must equal the reported Adj-RIB-Out.',
+    note='Exploration level, not proof. One genuine defect is a recorded known finding (stale attribute bucket, region predicate C04-stale-attribute-bucket in bounded/c04.py): sequences in which a prefix gets two different attribute sets within one flush window are reported as KNOWN-FINDING, everything else as VIOLATION. Watchdog operations and interleavings with a live event loop are not explored.',
+    ref='DESIGN.md §6 C04, §11',
+    technique='bounded stand-in only: exhaustive short operation sequences on the real RIB with an RFC reference decoder as peer model (contract-based proof of the RIB invariant not built yet)',
+)
+
 NOT_YET = 'check not built yet in this session (planned in DESIGN.md §6); not claimed until its obligations are discharged'
 NA = {}
 
